@@ -1523,3 +1523,155 @@ mod test {
     assert_eq!(difference, NamedSubset::default());
   }
 }
+
+/// Verification hooks (compiled only with `--cfg denoland_deno_graph_verif`):
+/// the lattice types of this module are private, so their operations are
+/// exposed over `serde_json::Value`.
+///
+/// Encoding: `Exports` = `"all"` | `{"name": Exports, ...}` (key order kept);
+/// `NamedSubset` = `{"name": Exports, ...}`;
+/// `ImportedExports` = `"star"` | `"star_with_default"` | `{"subset": NamedSubset}`.
+#[cfg(denoland_deno_graph_verif)]
+pub mod verif {
+  use super::*;
+  use serde_json::Value;
+  use serde_json::json;
+
+  fn exports_from(v: &Value) -> Exports {
+    match v {
+      Value::String(_) => Exports::All,
+      _ => Exports::Subset(subset_from(v)),
+    }
+  }
+
+  fn subset_from(v: &Value) -> NamedSubset {
+    let mut s = NamedSubset::default();
+    if let Value::Object(map) = v {
+      for (k, e) in map {
+        s.0.insert(k.clone(), exports_from(e));
+      }
+    }
+    s
+  }
+
+  fn exports_to(e: &Exports) -> Value {
+    match e {
+      Exports::All => json!("all"),
+      Exports::Subset(s) => subset_to(s),
+    }
+  }
+
+  fn subset_to(s: &NamedSubset) -> Value {
+    let mut map = serde_json::Map::new();
+    for (k, e) in &s.0 {
+      map.insert(k.clone(), exports_to(e));
+    }
+    Value::Object(map)
+  }
+
+  fn imported_from(v: &Value) -> ImportedExports {
+    match v {
+      Value::String(s) if s == "star" => ImportedExports::Star,
+      Value::String(_) => ImportedExports::StarWithDefault,
+      _ => ImportedExports::Subset(subset_from(&v["subset"])),
+    }
+  }
+
+  fn imported_to(i: &ImportedExports) -> Value {
+    match i {
+      ImportedExports::Star => json!("star"),
+      ImportedExports::StarWithDefault => json!("star_with_default"),
+      ImportedExports::Subset(s) => json!({ "subset": subset_to(s) }),
+    }
+  }
+
+  fn strings(v: &Value) -> Vec<String> {
+    v.as_array()
+      .map(|a| a.iter().map(|x| x.as_str().unwrap_or("").to_string()).collect())
+      .unwrap_or_default()
+  }
+
+  /// Applies one operation to a `NamedSubset`; returns `[new_state, result]`
+  /// where result is the returned difference for `extend` and null otherwise.
+  /// Operations: `["from_parts", parts]`, `["add", name]`,
+  /// `["add_qualified", name, parts]`, `["add_named", name, exports]`,
+  /// `["extend", subset]`.
+  pub fn named_subset_op(state: &Value, op: &Value) -> Value {
+    let mut s = subset_from(state);
+    let name = op[0].as_str().unwrap_or("");
+    let mut result = Value::Null;
+    match name {
+      "from_parts" => s = NamedSubset::from_parts(&strings(&op[1])),
+      "add" => s.add(op[1].as_str().unwrap_or("").to_string()),
+      "add_qualified" => {
+        s.add_qualified(op[1].as_str().unwrap_or("").to_string(), &strings(&op[2]))
+      }
+      "add_named" => {
+        s.add_named(op[1].as_str().unwrap_or("").to_string(), exports_from(&op[2]))
+      }
+      "extend" => result = subset_to(&s.extend(subset_from(&op[1]))),
+      _ => {}
+    }
+    json!([subset_to(&s), result])
+  }
+
+  /// `Exports::extend`: returns `[new_state, difference_or_null]`.
+  pub fn exports_extend(state: &Value, new: &Value) -> Value {
+    let mut e = exports_from(state);
+    let d = e.extend(exports_from(new));
+    json!([exports_to(&e), d.as_ref().map(exports_to)])
+  }
+
+  /// `ImportedExports::add`: returns `[new_state, newly_added_or_null]`.
+  pub fn imported_exports_add(state: &Value, new: &Value) -> Value {
+    let mut cur = imported_from(state);
+    let d = cur.add(imported_from(new));
+    json!([imported_to(&cur), d.as_ref().map(imported_to)])
+  }
+
+  /// The result of public-range tracing, per package in map order and per
+  /// module in tracing order: sorted byte ranges (relative to the start of
+  /// the module text), overload-implementation ranges, number of diagnostics,
+  /// package dependencies, and whether cache items were used.
+  pub fn public_ranges_dump(
+    ranges: &HashMap<PackageNv, PackagePublicRanges>,
+    graph: &ModuleGraph,
+    root_symbol: &RootSymbol,
+  ) -> Value {
+    let mut pkgs = Vec::new();
+    let mut nvs: Vec<&PackageNv> = ranges.keys().collect();
+    nvs.sort();
+    for nv in nvs {
+      let p = &ranges[nv];
+      let mut modules = Vec::new();
+      for (specifier, m) in &p.module_ranges {
+        let start = root_symbol
+          .module_from_specifier(specifier)
+          .map(|mi| mi.text_info().range().start);
+        let rel = |r: &SourceRange| match start {
+          Some(s) => json!([r.start - s, r.end - s]),
+          None => json!([0, 0]),
+        };
+        let mut rs: Vec<Value> = m.ranges.iter().map(rel).collect();
+        rs.sort_by_key(|v| (v[0].as_u64(), v[1].as_u64()));
+        let mut os: Vec<Value> = m.impl_with_overload_ranges.iter().map(rel).collect();
+        os.sort_by_key(|v| (v[0].as_u64(), v[1].as_u64()));
+        modules.push(json!({
+          "specifier": specifier.as_str(),
+          "ranges": rs,
+          "impl_with_overload_ranges": os,
+          "diagnostics": m.diagnostics.len(),
+          "in_graph": graph.get(specifier).is_some(),
+        }));
+      }
+      pkgs.push(json!({
+        "nv": nv.to_string(),
+        "entrypoints": p.entrypoints.iter().map(|e| e.as_str()).collect::<Vec<_>>(),
+        "modules": modules,
+        "dependencies": p.dependencies.iter().map(|d| d.to_string()).collect::<Vec<_>>(),
+        "from_cache": !p.cache_items.is_empty(),
+      }));
+    }
+    Value::Array(pkgs)
+  }
+}
